@@ -53,6 +53,7 @@ from ..refs.macroast import num, S, lit, Illegal, Undefined
 
 PROPERTY = 'C17'
 NEEDS_C = False
+STOP_AFTER = 150       # violations per section per shard after which that section stops enumerating
 
 # ------------------------------------------------------------------------------ fixtures
 SKOOL = """@start
@@ -588,8 +589,10 @@ def check_text(w, ast, text, stats):
     _clear_caches()
     bad = compare(w, ast, text)
     stats.evaluations += 1
-    if bad:
-        w.fresh()       # a wrong expansion may have left the writers in an unknown state
+    if bad and (not pure(ast) or any('ERROR:' in d for _, d in bad)):
+        # a wrong expansion of a state-changing text (or an exception half-way through one) may
+        # have left the writers in an unknown state: the next case gets fresh ones
+        w.fresh()
     return bad
 
 
@@ -909,14 +912,29 @@ def _shard(shard, nshards, tier, seed):
         return W[c]
     env_state = writers(cfg).state
     maxdepth = 0
+    vcount = {'expr': 0, 'macro': 0, 'macro-cfg': 0, 'hist': 0, 'tool': 0}
     for i, (section, payload) in core.shard_iter(_cases(tier, seed, env_state), shard, nshards):
+        sec = section
+        if section in ('macro', 'macro-cfg'):
+            # vacuity guards count what the generator reaches, whether or not the section still runs
+            stats.counters['macro_depth%d' % payload[0]] += section == 'macro'
+            if M._has(payload[1], ('HASH',)):
+                stats.counters['macro_hash'] += section == 'macro'
+        if vcount[sec] >= STOP_AFTER:
+            # the verdict of this section is decided; do not spend hours enumerating a broken tree
+            cap = '{} section stopped after {} violations in one shard'.format(sec, STOP_AFTER)
+            if cap not in stats.caps:
+                stats.caps.append(cap)
+            continue
+        n0 = stats.n_violations
         if section == 'expr':
             w = writers(cfg)
             ev0 = stats.evaluations
             for kind, text, detail in check_expr(w, payload, stats, tier):
                 stats.violation('expr/' + text, {'section': 'expr', 'ast': payload, 'cfg': cfg}, detail,
                                 tags={'section': 'expr', 'kind': kind, 'text': text, 'feat': ''}, order=i)
-                w.fresh()
+                if 'ERROR:' in detail:
+                    w.fresh()
             if stats.evaluations > ev0 and len(stats.samples) < 3:
                 stats.sample({'section': 'expr', 'text': M.render(EV(payload)), 'documented': expected(S(EV(payload)), w.state, w.mode(False))[0]
                               if not isinstance(M.Evaluator(w.state, w.mode(False)).int_(payload, M._Env()), M.Truth) else 'truth value only'})
@@ -930,7 +948,7 @@ def _shard(shard, nshards, tier, seed):
                 else:
                     found = []
                     try:
-                        text = M.render(ast, None, w.defs, (']',))
+                        text = M.render(ast, base_style(ast, w.defs) or {}, w.defs, (']',))
                         expected(ast, w.state, w.mode(False))
                         expected(ast, w.state, w.mode(True))
                         found = [(k, text, {}, dt) for k, dt in check_text(w, ast, text, stats)]
@@ -942,9 +960,6 @@ def _shard(shard, nshards, tier, seed):
                                     detail, tags={'section': 'macro', 'kind': kind, 'text': text, 'feat': features(ast, w.defs, style), 'depth': depth}, order=i)
             if depth >= 2:
                 stats.nontriv(('macro', ast))
-            stats.counters['macro_depth%d' % depth] += 1
-            if M._has(ast, ('HASH',)):
-                stats.counters['macro_hash'] += 1
             if i % 1499 == 0:
                 try:
                     stats.sample({'section': 'macro', 'depth': depth, 'text': M.render(ast, None, writers(cfg).defs),
@@ -978,6 +993,7 @@ def _shard(shard, nshards, tier, seed):
                                 {'section': 'tool', 'hist': list(hist), 'cfg': cfg, 'fam': fam},
                                 'after @expand of {}: {}'.format(names, detail),
                                 tags={'section': 'tool', 'kind': kind, 'text': text, 'feat': 'loop_separator_has_html_special' if ' & ' in text else ''}, order=i)
+        vcount[sec] += stats.n_violations - n0
     stats.counters['expansions'] += sum(w.nexp for w in W.values())
     return stats
 
